@@ -193,6 +193,12 @@ def check_read(ctx, F, b, who, mask_field, step, fresh_test, fresh_post):
 
 
 def check_len(ctx, F):
+    """len(): the bits held in the current word are (position of the mask) + 1, and 0 when the mask is empty.
+
+    The mask has three kinds of states: empty (0), 2^p with p < BITS-1, and 2^(BITS-1) (word full, not yet flushed).  Every
+    return path of len() is matched with the states its predicates admit (`mask == 0`, `mask << 1 == 0`, ...), and the
+    value it adds is evaluated in the position domain (trailing_zeros(2^e) = e); it must be p+1 resp. 0 in every admitted
+    state."""
     key = 'R4/position/len/' + SC
     role = 'len() counts (position of the last written bit) + 1 bits for the current word'
     b = body_of(F, SC, 'len')
@@ -200,31 +206,89 @@ def check_len(ctx, F):
         return ctx.unresolved('R4', role, SC, 'len not found', key=key)
     ev, paths = rules.evaluate(b)
     ctx.touch(b)
-    verdict = {}
+    mask = _mask_in('mask_last_written')
+    BITS = pow2.bits_of('Word')
+    STATES = {          # name -> (exponent of the mask or None for the empty mask, expected number of bits)
+        'empty': (None, ({}, 0)),
+        'partial': (({sym.tkey(P): (1, P)}, 0), ({sym.tkey(P): (1, P)}, 1)),
+        'full': (pow2._exp_add(BITS, ({}, 1), -1), BITS),
+    }
+
+    def exp_of(t, state):
+        """exponent of the one-hot value t in `state` ('zero' if it is 0, None if unknown)."""
+        e0 = STATES[state][0]
+        if t == mask:
+            return 'zero' if e0 is None else e0
+        if t[0] == 'bin' and t[1] == 'Shl' and sym.is_int(t[3]):
+            e = exp_of(t[2], state)
+            if e in (None, 'zero'):
+                return e
+            e2 = pow2._exp_add(e, ({}, t[3][1]))
+            # shifted out of the word?
+            if state == 'full' and pow2.exp_cmp(e2, BITS) is not None and pow2.exp_cmp(e2, BITS) >= 0:
+                return 'zero'
+            return e2
+        return None
+
+    def holds(t, v, state):
+        """does predicate (t == v) hold in this mask state?  True / False / None (unknown or unrelated)."""
+        if t[0] == 'bin' and t[1] in ('Eq', 'Ne'):
+            for x, z in ((t[2], t[3]), (t[3], t[2])):
+                if pow2._is_zero(z):
+                    e = exp_of(x, state)
+                    if e is None:
+                        return None
+                    is_zero = (e == 'zero')
+                    truth = is_zero if t[1] == 'Eq' else not is_zero
+                    return truth == bool(v)
+        return None
+
+    def count_of(extra, state):
+        """value added for the current word, as an affine exponent-like form, or None."""
+        def f(n):
+            if n and n[0] == 'cast':
+                return n[2]
+            return None
+        x = effects.rebuild(extra, f)
+        a = sym.affine(x)
+        if a is None:
+            return None
+        total = ({}, a[1])
+        for k, (c, at) in a[0].items():
+            if at[0] == 'call' and str(at[1]).endswith('trailing_zeros'):
+                e = exp_of(at[2][0], state)
+                if e in (None, 'zero'):
+                    return None
+                total = pow2._exp_add(total, ({kk: (vv[0] * c, vv[1]) for kk, vv in e[0].items()}, e[1] * c))
+            else:
+                return None
+        return total
+    n_checked = 0
     for r in paths or []:
         if r.end != 'return':
             continue
-        empty = [v for t, v, _ in r.preds if t[0] == 'bin' and t[1] == 'Eq' and _mask_in('mask_last_written') in (t[2], t[3])]
         adds = [x for x in sym.subterms(r.ret) if isinstance(x, tuple) and x and x[0] == 'call' and str(x[1]).endswith('::checked_add')]
-        if not empty or len(adds) != 1:
-            return ctx.unresolved('R4', role, b.defpath, 'shape not recognised', key=key)
+        if len(adds) != 1:
+            return ctx.unresolved('R4', role, b.defpath, 'shape not recognised (no single checked_add)', key=key)
         extra = adds[0][2][1]
-        while extra[0] == 'cast':
-            extra = extra[2]
-        if empty[0]:
-            verdict['empty'] = (extra == ('int', 0), sym.show(extra))
-        else:
-            a = sym.affine(effects.rebuild(extra, lambda n_: n_[2] if n_ and n_[0] == 'cast' else None))
-            atoms = [at for k, (c, at) in a[0].items()] if a else []
-            ok = a is not None and a[1] == 1 and len(atoms) == 1 and atoms[0][0] == 'call' and str(atoms[0][1]).endswith('trailing_zeros') and atoms[0][2][0] == _mask_in('mask_last_written') and list(a[0].values())[0][0] == 1
-            verdict['partial'] = (ok, sym.show(extra))
-    if set(verdict) != {'empty', 'partial'}:
-        return ctx.unresolved('R4', role, b.defpath, 'expected an empty-word and a partial-word path', key=key)
-    if not verdict['empty'][0]:
-        return ctx.bad('R4', role, b.defpath, 'with no partial word len() still adds %s' % verdict['empty'][1], key=key, loc=rules.loc(b))
-    if not verdict['partial'][0]:
-        return ctx.bad('R4', role, b.defpath, 'for a partial word len() adds %s; bits fill the word from position 0 and the mask sits on the last written bit, so the count is trailing_zeros(mask) + 1' % verdict['partial'][1][:100], key=key, loc=rules.loc(b))
-    return ctx.ok('R4', role, b.defpath, 'remaining * BITS + (trailing_zeros(mask) + 1), and + 0 when the mask is empty', key=key)
+        for state, (e0, want) in STATES.items():
+            verdicts = [holds(t, v, state) for t, v, _ in r.preds]
+            if any(x is False for x in verdicts):
+                continue            # this path is not taken in this state
+            if not any(x is True for x in verdicts):
+                continue            # the path does not constrain the mask: cannot attribute it
+            n_checked += 1
+            got = count_of(extra, state)
+            if got is None:
+                return ctx.unresolved('R4', role, b.defpath, 'the value added for state `%s` is not a constant / trailing_zeros form: %s' % (state, sym.show(extra)[:80]), key=key)
+            if pow2.exp_cmp(got, want) != 0:
+                desc = {'empty': 'the mask is empty', 'partial': 'the mask sits at position p < BITS-1', 'full': 'the current word is full (mask at position BITS-1) but not yet flushed'}[state]
+                return ctx.bad('R4', role, b.defpath, 'when %s, len() adds %s bits for the current word where %s are held: %s' % (
+                    desc, exp_str(got), exp_str(want), 'the reported length is short by a whole word exactly when the bit count is a multiple of the word size' if state == 'full' else 'the reported length is off'),
+                    key=key, loc=rules.loc(b))
+    if n_checked < 3:
+        return ctx.unresolved('R4', role, b.defpath, 'only %d (path, mask state) pairs could be attributed' % n_checked, key=key)
+    return ctx.ok('R4', role, b.defpath, '%d (path, mask state) pairs: + 0 for the empty mask, + p + 1 at position p, + BITS for a full unflushed word' % n_checked, key=key)
 
 
 def check_marker(ctx, F):
